@@ -596,6 +596,14 @@ func (b *Builder) of1(v ssa.Value, at ssa.Instruction, depth int) *Term {
 			flat(inner)
 			return b.mk("concat", "", v, parts...)
 		}
+		if y, isConv := x.X.(*ssa.Convert); isConv && inner.Op == "conv" && len(inner.Args) == 1 {
+			// T(U(v)) for v of integer type T and U an integer type of the same width (int(uint(n))): wrap-around both ways, v
+			b1, _, ok1 := intKind(x.Type())
+			b2, _, ok2 := intKind(y.Type())
+			if ok1 && ok2 && b1 == b2 && types.Identical(x.Type(), y.X.Type()) {
+				return inner.Args[0]
+			}
+		}
 		return b.mk("conv", typeName(x.Type()), v, inner)
 	case *ssa.SliceToArrayPointer:
 		return b.mk("conv", typeName(x.Type()), v, b.of(x.X, at, depth+1))
@@ -1311,6 +1319,25 @@ func (b *Builder) objAt(v ssa.Value, at ssa.Instruction, depth int) *Term {
 	h := b.history(root, at, depth)
 	if len(h) == 0 {
 		return base
+	}
+	if base.Op == "alloc" && base.Name == "math/big.Int" {
+		// a scratch big.Int that is set anew: what it held before does not matter (x.SetInt64(a); …; x.SetInt64(b))
+		for i := len(h) - 1; i > 0; i-- {
+			if e := h[i]; e.Op == "call" && (e.Name == "(*math/big.Int).SetInt64" || e.Name == "(*math/big.Int).SetUint64" || e.Name == "(*math/big.Int).SetBytes") && len(e.Args) == 2 && e.Args[0].Op == "self" {
+				h = h[i:]
+				break
+			}
+		}
+		// new(big.Int).SetInt64(v) is big.NewInt(v)
+		if h[0].Op == "call" && h[0].Name == "(*math/big.Int).SetInt64" && len(h[0].Args) == 2 && h[0].Args[0].Op == "self" {
+			if _, isC := isConstInt(h[0].Args[1]); !isC && !(h[0].Args[1].Op == "conv" && lengthLike(h[0].Args[1].Args[0])) {
+				base = &Term{Op: "call", Name: "math/big.NewInt", V: base.V, Args: []*Term{h[0].Args[1]}}
+				h = h[1:]
+				if len(h) == 0 {
+					return base
+				}
+			}
+		}
 	}
 	// new(big.Int).SetUint64(uint64(n)) / .SetInt64(int64(n)) for a length n is big.NewInt(int64(n))
 	if base.Op == "alloc" && base.Name == "math/big.Int" && h[0].Op == "call" && (h[0].Name == "(*math/big.Int).SetUint64" || h[0].Name == "(*math/big.Int).SetInt64") && len(h[0].Args) == 2 && h[0].Args[0].Op == "self" {
